@@ -298,33 +298,13 @@ theorem root_guess_hypothesis_needed : root 8 255 2 1 = .panic ∧ guessOk 8 255
     re-confirm `root_spec` / `log_spec` on every input of the small widths, for **every** first guess /
     estimate, and show that an exact first guess always satisfies `guessOk`) -/
 
-/-- bounded enumeration -/
-def allLt (n : Nat) (p : Nat → Bool) : Bool := (List.range n).all p
-
-/-- widths `< maxBits`, all `x`, all degrees reaching the loop, **all** guesses `g < 2^bits`:
-    `guessOk → root = oracle`. -/
-def rootCross (maxBits : Nat) : Bool :=
-  allLt maxBits fun bits => allLt (2 ^ bits) fun x => allLt bits fun k =>
-    if 2 ≤ k ∧ x ≠ 0 then
-      allLt (2 ^ bits) fun g =>
-        !(guessOk bits x k g (iroot x k)) || decide (root bits x k g = .ok (iroot x k))
-    else true
-
-/-- an exact first guess `g = s` always satisfies the hypothesis (it is not vacuous at any tiny input). -/
-def rootExactGuessOk (maxBits : Nat) : Bool :=
-  allLt maxBits fun bits => allLt (2 ^ bits) fun x => allLt bits fun k =>
-    if 2 ≤ k ∧ x ≠ 0 then guessOk bits x k (iroot x k) (iroot x k) else true
-
-/-- widths `< maxBits`, all `(x, base)`, **all** estimates: `estOk → log = oracle`. -/
-def logCross (maxBits : Nat) : Bool :=
-  allLt maxBits fun bits => allLt (2 ^ bits) fun x => allLt (2 ^ bits) fun base => allLt (2 ^ bits) fun est =>
-    if 2 ≤ base ∧ x ≠ 0 then
-      !(estOk bits base est (ilog base x)) || decide (Log.log bits x base est = .ok (ilog base x))
-    else true
-
-theorem crosscheck_root_widths_le_5 : rootCross 6 = true := by decide +kernel
-theorem crosscheck_root_exact_guess_ok_widths_le_8 : rootExactGuessOk 9 = true := by decide +kernel
-theorem crosscheck_log_widths_le_5 : logCross 6 = true := by decide +kernel
+/-- widths `≤ 5`, all `x`, all degrees reaching the loop, **all** guesses `g < 2^bits`: `guessOk → root = oracle`
+    (`C13Spec.rootCross`, a `List.range` enumeration). -/
+theorem crosscheck_root_widths_le_5 : C13Spec.rootCross 6 = true := by decide +kernel
+/-- widths `≤ 8`: an exact first guess `g = s` always satisfies `guessOk` and gives the oracle's root. -/
+theorem crosscheck_root_exact_guess_ok_widths_le_8 : C13Spec.rootExactGuessOk 9 = true := by decide +kernel
+/-- widths `≤ 5`, all `(x, base)`, **all** estimates: `estOk → log = oracle`. -/
+theorem crosscheck_log_widths_le_5 : C13Spec.logCross 6 = true := by decide +kernel
 
 /-! ## non-vacuity: the hypotheses are satisfiable and the model computes -/
 
